@@ -90,6 +90,20 @@ void explore_pad(Ctx &ctx) {
         }
 }
 
+// block sizes above 2^24, i.e. more than 2^24 padding bytes: position arithmetic done in fewer than 32 useful bits would show here
+void explore_pad_huge(Ctx &ctx) {
+    uint64_t idx = 0;
+    std::vector<size_t> bss = { ((size_t) 1 << 24) + 1, (size_t) 1 << 25, ((size_t) 1 << 25) + 3 };
+    if (ctx.thorough()) { bss.push_back((size_t) 1 << 26); bss.push_back(((size_t) 1 << 24) - 1); bss.push_back((size_t) 1 << 24); bss.push_back(((size_t) 1 << 27) + 1); }
+    for (size_t bs : bss)
+        for (size_t un : { (size_t) 10, bs - 1, bs + 5 }) {
+            if (!ctx.mine(idx++)) continue;
+            size_t padded = 0; if (!ref::pad_len(un, bs, padded)) continue;
+            PadCase c{ un, bs, padded, false, mix64(ctx.seed, mix64(un, bs)) };
+            exec_case(ctx, c, run_pad, mix64(mix64(un, bs), padded), true);
+        }
+}
+
 void explore_unpad(Ctx &ctx) {
     uint64_t idx = 0;
     static const uint8_t SYM[] = { 0x00, 0x80, 0x01, 0xff };
@@ -154,5 +168,5 @@ bool replay(const KV &k, std::string &msg) {
 }  // namespace
 
 std::vector<Sub> vh_subs() {
-    return { { "pad", explore_pad, replay }, { "unpad", explore_unpad, replay } };
+    return { { "pad", explore_pad, replay }, { "pad_huge_blocks", explore_pad_huge, replay }, { "unpad", explore_unpad, replay } };
 }
